@@ -64,6 +64,7 @@ func Reset() {
 	zverif.PoolOpHook = nil
 	zverif.OrderHook = nil
 	zverif.YieldHook = nil
+	zverif.SyncHook = nil
 	internals.ClearPools()
 	for _, np := range Pools() {
 		np.P.Free = nil
